@@ -71,6 +71,18 @@ func analysePctFunc(c *core.Ctx, info *types.Info, fd *ast.FuncDecl, key string)
 	return f
 }
 
+// isCh recognises "the current byte": the variable assigned from str[idx] or str[idx] itself.
+func (f *pctFunc) isCh(info *types.Info, e ast.Expr) bool {
+	e = astx.StripConv(info, astx.Unparen(e))
+	if o := astx.ObjOf(info, e); o != nil && o == f.ch {
+		return true
+	}
+	if ie, ok := e.(*ast.IndexExpr); ok {
+		return astx.ObjOf(info, ie.X) == f.str && f.idx != nil && astx.ObjOf(info, ie.Index) == f.idx
+	}
+	return false
+}
+
 // env for (byte value b, index i, length n)
 func (f *pctFunc) env(info *types.Info, b, i, n int64) astx.Env {
 	return astx.Env{Int: func(e ast.Expr) (int64, bool) {
@@ -225,7 +237,7 @@ func percentAgreement(c *core.Ctx) {
 			sprintf = call
 		}
 		if fn, ok := callee.(*types.Func); ok && fn.Name() == "WriteByte" && len(call.Args) == 1 {
-			if o := astx.ObjOf(info, call.Args[0]); o != nil && o == encSlow.ch {
+			if encSlow.isCh(info, call.Args[0]) {
 				passWrite = call
 			}
 		}
@@ -262,7 +274,7 @@ func percentAgreement(c *core.Ctx) {
 		escByte = '%'
 		arg := sprintf.Args[fmtArg+1]
 		isByte := false
-		if o := astx.ObjOf(info, arg); o != nil && o == encSlow.ch {
+		if encSlow.isCh(info, arg) {
 			isByte = true
 		}
 		if tv, ok := info.Types[arg]; ok {
@@ -295,7 +307,7 @@ func percentAgreement(c *core.Ctx) {
 			parse = call
 		}
 		if fn, ok := callee.(*types.Func); ok && fn.Name() == "WriteByte" && len(call.Args) == 1 {
-			if o := astx.ObjOf(info, call.Args[0]); o != nil && o == decSlow.ch {
+			if decSlow.isCh(info, call.Args[0]) {
 				decPass = call
 			}
 		}
@@ -489,20 +501,55 @@ func binHeader(c *core.Ctx) {
 	}
 	alpha, padded := family(eu[0].enc)
 	c.Check(!padded, "encode/unpadded", eu[0].call.Pos(), "encoder uses base64.%s (gRPC: emit unpadded)", eu[0].enc)
-	du := uses(dec)
-	if len(du) != 2 {
-		c.Undecided("decode", dec.Pos(), "expected two base64 Decode* calls (padded and unpadded), found %d", len(du))
-		return
+	// decoder: per path to a Decode* call, which encoding is used (named directly or chosen into a
+	// local first) under which conditions
+	type duse struct {
+		enc, method string
+		call        *ast.CallExpr
+		facts       []astx.Cond
 	}
-	for _, u := range du {
-		a, pad := family(u.enc)
-		c.Check(a == alpha && strings.HasPrefix(u.method, "Decode"), "decode/alphabet/"+u.enc, u.call.Pos(), "decoder uses base64.%s.%s (alphabet %s, encoder alphabet %s)", u.enc, u.method, a, alpha)
-		// the padded decoder must only run when len%4 == 0; the raw one when len%4 != 0
-		dnf, trunc := astx.PathConditions(info, dec.Body, u.call)
-		if trunc || len(dnf) == 0 {
-			c.Undecided("decode/guard/"+u.enc, u.call.Pos(), "no path condition")
+	var du []duse
+	for _, call := range astx.Calls(dec.Body) {
+		sel, ok := call.Fun.(*ast.SelectorExpr)
+		if !ok {
 			continue
 		}
+		fn := astx.CalleeFunc(info, call)
+		if fn == nil || !astx.TypeIs(recvType(fn), "encoding/base64", "Encoding") {
+			continue
+		}
+		astx.ForEachPathTo(info, dec.Body, call, func(s *astx.State) {
+			recv := astx.Unparen(sel.X)
+			for depth := 0; depth < 3; depth++ {
+				v, _ := astx.ObjOf(info, recv).(*types.Var)
+				if v != nil && v.Pkg() != nil && v.Pkg().Path() == "encoding/base64" {
+					du = append(du, duse{v.Name(), fn.Name(), call, factsOf(s)})
+					return
+				}
+				if v == nil {
+					break
+				}
+				rhs := s.LastAssigned(info, v)
+				if rhs == nil {
+					break
+				}
+				recv = astx.Unparen(rhs)
+			}
+			c.Undecided("base64-receiver", call.Pos(), "base64 method called on %s, which is not (a local holding) a package-level encoding", types.ExprString(sel.X))
+		})
+	}
+	encs := map[string]bool{}
+	for _, u := range du {
+		encs[u.enc] = true
+		a, _ := family(u.enc)
+		c.Check(a == alpha && strings.HasPrefix(u.method, "Decode"), "decode/alphabet/"+u.enc, u.call.Pos(), "decoder uses base64.%s.%s (alphabet %s, encoder alphabet %s)", u.enc, u.method, a, alpha)
+	}
+	if len(encs) != 2 {
+		c.Undecided("decode", dec.Pos(), "expected the padded and the unpadded decoder, found %d encoding(s)", len(encs))
+		return
+	}
+	for enc := range encs {
+		_, pad := family(enc)
 		okAll := true
 		for n := int64(0); n < 12; n++ {
 			env := astx.Env{Int: func(e ast.Expr) (int64, bool) {
@@ -518,11 +565,18 @@ func binHeader(c *core.Ctx) {
 				}
 				return 0, false
 			}}
-			reach, err := dnf.Eval(info, env, nil, nil)
-			if err != nil {
-				c.Undecided("decode/guard/"+u.enc, u.call.Pos(), "guard not decidable: %v", err)
-				okAll = false
-				break
+			reach := false
+			for _, u := range du {
+				if u.enc != enc {
+					continue
+				}
+				ok, err := (astx.DNF{u.facts}).Eval(info, env, nil, nil)
+				if err != nil {
+					c.Undecided("decode/guard/"+enc, u.call.Pos(), "guard not decidable: %v", err)
+					okAll = false
+					break
+				}
+				reach = reach || ok
 			}
 			// unpadded decoder rejects padding and padded decoder requires len%4==0
 			if pad && reach && n%4 != 0 {
@@ -532,7 +586,7 @@ func binHeader(c *core.Ctx) {
 				okAll = false
 			}
 		}
-		c.Check(okAll, "decode/guard/"+u.enc, u.call.Pos(), "padding-aware decoder runs only when len%%4==0; inputs with len%%4!=0 reach the unpadded decoder (decided for all residues)")
+		c.Check(okAll, "decode/guard/"+enc, dec.Pos(), "padding-aware decoder runs only when len%%4==0; inputs with len%%4!=0 reach the unpadded decoder (decided for all residues)")
 	}
 }
 
